@@ -346,7 +346,8 @@ def _sorted_rows_comprehension(eng, e, st):
         inv = z3.Function(f"inv!{tag}", I, I, I)
         v, k1, k2, q = fresh("v"), fresh("k"), fresh("k"), fresh("q")
         src = lambda t: (hsrc.at(rows, t), rows.ty.arg.region or "c")  # noqa: E731
-        new = (base + v, region)
+        # the new row is designated by the outer list's element (no arithmetic in the quantifier patterns)
+        new = (z3.Select(rowsarr, v), region)
         n = hsrc.len(src(v))
         inr = z3.And(v >= 0, v < n1)
         s.assume(forall([v], z3.Implies(inr, z3.And(z3.Select(rowsarr, v) == base + v, h2.len(new) == n)),
